@@ -539,7 +539,7 @@ def population(ctx):
     for nm in ("f14", "blocks", "time"):
         S = corner_case(nm)
         cases.append(Case("corner:" + nm, sgt.to_yaml(S), S))
-    n = 260 if q else 2600
+    n = 220 if q else 2400
     for i in range(n):
         S = sgt.gen(rng, rich=True)
         cases.append(Case("generated", sgt.to_yaml(S), S))
